@@ -12,6 +12,7 @@
 (* rational.  Distances 1, 10, 100 pc; theta in arcsec = radius in AU/pc.  *)
 (***************************************************************************)
 EXTENDS FitKernel, RadiusOps, TLC, Json
+CONSTANTS RFlags, RYs, RWs, RPs, RMod       \* enumeration of the source bands (Y offset by +8 in the cfg) and emission sampling
 Theta == <<1, 2>>
 Dist  == <<1, 10, 100>>
 Cubes == << << << <<0, 0>>, <<-8, -8>>, <<-16, -16>> >>,          \* point source: same flux in every aperture -> d^-2
@@ -36,7 +37,7 @@ Init == src = Empty /\ cfg \in [c : 1..Len(Cubes), k : 1..Len(KPats)]
 AddBand(f, y, w, p) == /\ Len(src.flag) < 2
                        /\ src' = [flag |-> Append(src.flag, f), Y |-> Append(src.Y, y), W |-> Append(src.W, w), P |-> Append(src.P, p)]
                        /\ UNCHANGED cfg
-Next == \E f \in {0, 1, 2, 3, 4, 9}, y \in {-4, 0, 4}, w \in {1, 4}, p \in {0, 2} : AddBand(f, y, w, p)
+Next == \E f \in RFlags, y \in {yy - 8 : yy \in RYs}, w \in RWs, p \in RPs : AddBand(f, y, w, p)
 Spec == Init /\ [][Next]_vars
 Full == Len(src.flag) = 2
 OK == Full /\ ~SingularDist(src, K)
@@ -57,10 +58,10 @@ Checksum == SumSeq([j \in 1..Len(src.flag) |-> (src.flag[j] * 7 + src.Y[j] * 13 
 SetSeq(S) == LET RECURSIVE F(_, _)
                  F(T2, acc) == IF T2 = {} THEN acc ELSE LET m == CHOOSE x \in T2 : \A y \in T2 : x <= y IN F(T2 \ {m}, Append(acc, m))
              IN  F(S, <<>>)
-EmitInv == (OK /\ Checksum % 3 = 0) =>
+EmitInv == (OK /\ Checksum % RMod = 0) =>
   PrintT(ToJson([src |-> src, K |-> K, cfg |-> cfg, cube |-> Cube,
                  ext |-> [m \in 1..NM |-> [i \in 1..ND |-> [j \in 1..2 |-> Extended(m, i, j)]]],
                  rows |-> [m \in 1..NM |-> [allowed |-> SetSeq(Allowed(m)), best |-> SetSeq(BestAllowed(m)),
                                             bnd |-> (\E i \in 1..ND : Fits(m)[i].boundary),
-                                            fits |-> [i \in 1..ND |-> [u |-> Fits(m)[i].u, big |-> Fits(m)[i].big, chi |-> Fits(m)[i].chi]]]]]))
+                                            fits |-> [i \in 1..ND |-> [u |-> Fits(m)[i].u, big |-> Fits(m)[i].big, chi |-> Fits(m)[i].chi, pred20 |-> Fits(m)[i].pred20]]]]]))
 =============================================================================
